@@ -25,6 +25,7 @@ pub mod c14;
 pub mod c15;
 pub mod c16;
 pub mod c17;
+pub mod c18;
 pub mod c19;
 pub mod c20;
 
@@ -65,6 +66,7 @@ pub fn registry() -> Vec<PropDef> {
         PropDef { id: "C15", level: "exploration", run: c15::run, replay: c15::replay, replay_isolated: Some(c15::replay_isolated) },
         PropDef { id: "C16", level: "exploration", run: c16::run, replay: c16::replay, replay_isolated: None },
         PropDef { id: "C17", level: "exploration", run: c17::run, replay: c17::replay, replay_isolated: None },
+        PropDef { id: "C18", level: "translation_validation", run: c18::run, replay: c18::replay, replay_isolated: None },
         PropDef { id: "C19", level: "exploration", run: c19::run, replay: c19::replay, replay_isolated: None },
         PropDef { id: "C20", level: "exploration", run: c20::run, replay: c20::replay, replay_isolated: None },
     ]
@@ -104,7 +106,8 @@ fn replay_corpus(env: &Env, def: &PropDef, rep: &Report) -> bool {
         if name.starts_with("fail-") && std::env::var("SV_REPLAY_FAILS").is_err() {
             continue;
         }
-        match def.do_replay(&sub, case.clone()) {
+        let r = if def.id == "C18" { Some(c18::replay_file(env, &f)) } else { def.do_replay(&sub, case.clone()) };
+        match r {
             None => {
                 eprintln!("[sv] replay {}: unknown sub-check {}", name, sub);
             }
@@ -145,6 +148,9 @@ pub fn run(env: &Env) -> i32 {
 }
 
 pub fn child(env: &Env, sub: &str) -> i32 {
+    if sub == "pydriver" {
+        return c18::driver_loop();
+    }
     match find(&env.prop) {
         Some(def) => crate::core::child_loop(sub, def.replay),
         None => 64,
@@ -164,7 +170,8 @@ pub fn replay_file(env: &Env, path: &Path) -> i32 {
     let sub = v.get("sub").and_then(|s| s.as_str()).unwrap_or("").to_string();
     let case = v.get("case").cloned().unwrap_or(Value::Null);
     let known = crate::core::load_known_findings(env);
-    match def.do_replay(&sub, case) {
+    let r = if def.id == "C18" { Some(c18::replay_file(env, path)) } else { def.do_replay(&sub, case) };
+    match r {
         None => {
             eprintln!("unknown sub-check {}", sub);
             64
